@@ -28,6 +28,7 @@ INPUTS = [
     [mrec("", "d/", ["dd"])],
     [mrec("b", "y/", [], ["x1/"])],
     [],
+    [mrec("A", "Y/")],     # ignoring case it matches two different records of input 0 (one by CURIE prefix, one by URI prefix), exactly none
 ]
 
 Q_PREFIXES = ["a", "a1", "A", "b", "b1", "c", "q", "", "dd", "n", "zz", "fresh", "newp"]
@@ -83,7 +84,7 @@ def derivations(model, other_idx):
 def followups(conv):
     """Concrete mutations of a derived converter, generated from its current records."""
     out = []
-    for r in conv.records[:2]:
+    for r in conv.records[:2] + (conv.records[-1:] if len(conv.records) > 2 else []):   # the first two and the most recently appended
         out.append({"do": "add_prefix", "args": [r.prefix, "new1/"], "merge": True, "cs": True})
         out.append({"do": "add_prefix", "args": ["newp", r.uri_prefix], "merge": True, "cs": True})
         if r.prefix_synonyms:
@@ -139,10 +140,10 @@ def do_step(world, step, out_name):
     return out_name, None
 
 
-def make_conv(recs, incremental):
+def make_conv(recs, incremental, delim=":"):
     if not incremental:
-        return Converter([to_record(r) for r in recs])
-    conv = Converter([])     # built incrementally, in reverse order: the records list is not sorted
+        return Converter([to_record(r) for r in recs], delimiter=delim)
+    conv = Converter([], delimiter=delim)     # built incrementally, in reverse order: the records list is not sorted
     for r in reversed(recs):
         conv.add_record(to_record(r))
     return conv
@@ -150,7 +151,7 @@ def make_conv(recs, incremental):
 
 def make_world(case):
     inc = case.get("incremental", False)
-    world = {"c1": make_conv(recs_from_json(case["c1"]), inc)}
+    world = {"c1": make_conv(recs_from_json(case["c1"]), inc, case.get("c1_delim", ":"))}
     for name, recs in case.get("others", {}).items():
         world[name] = make_conv(recs_from_json(recs), inc)
     return world
@@ -224,6 +225,13 @@ def expand_input(idx, ctx, only=None):
         if not fi:
             ctx.count("validated")
             ctx.count("derivations_on_incrementally_built_inputs")
+        # ... and on an input that writes CURIEs with another delimiter (its setting is its own, too)
+        case1d = dict(case1, c1_delim="/")
+        fd = run_history(case1d, ctx)
+        report(ctx, case1d, fd)
+        if not fd:
+            ctx.count("validated")
+            ctx.count("derivations_on_inputs_with_other_delimiter")
         fails, world = run_history(case1, ctx, want_world=True)
         report(ctx, case1, fails)
         if fails or "d1" not in world:
